@@ -11,7 +11,7 @@ Fixpoint ins_key {T} (kv : N * T) (l : list (N * T)) : list (N * T) :=
   end.
 Fixpoint sort_keys {T} (l : list (N * T)) : list (N * T) :=
   match l with [] => [] | kv :: r => ins_key kv (sort_keys r) end.
-Fixpoint list_eqb {T} (eqb : T -> T -> bool) (a b : list T) : bool :=
+Fixpoint list_eqb {A B} (eqb : A -> B -> bool) (a : list A) (b : list B) : bool :=
   match a, b with
   | [], [] => true
   | x :: a', y :: b' => eqb x y && list_eqb eqb a' b'
